@@ -358,10 +358,10 @@ def run(ctx: Ctx):
         handle(body["replay"]["case"], "replay")
         return
 
-    n_random = 6000 if ctx.thorough else 420
-    n_directed = 3000 if ctx.thorough else 200
-    n_small = 2500 if ctx.thorough else 120
-    n_over = 300 if ctx.thorough else 40
+    n_random = 3000 if ctx.thorough else 300
+    n_directed = 1500 if ctx.thorough else 150
+    n_small = 2500 if ctx.thorough else 100
+    n_over = 150 if ctx.thorough else 30
 
     for _ in range(n_random):
         handle(N.gen_case(rng), "random")
